@@ -94,8 +94,7 @@ def run_pool(desc):
         return {"status": "inconclusive", "reason": "exported strategies not in registry: %s" % miss}
     variant = desc["variant"]
     cdesc = dict(desc, cmode="feat" if variant == "feat" and POOL[desc["entry"]].feat else None, batch=None)
-    c = poolcase.build(cdesc)
-    why = poolcase.domain(c)
+    c, why = poolcase.build_in_domain(cdesc)
     if why:
         return {"status": "skip", "skip_reason": why}
     e = c.entry
